@@ -26,3 +26,5 @@ Definition compact_no_partial_publish := @compact_no_partial_publish_thm.
 Definition ack_means_in_sync := ack_means_in_sync_thm.
 Definition init_listing_error_propagates := init_listing_error_propagates_thm.
 Definition catch_up_after_reopen := catch_up_after_reopen_thm.
+Definition never_corrupt := never_corrupt_thm.
+Definition baseline_short_read_is_error := baseline_short_read_is_error_thm.
